@@ -591,7 +591,7 @@ func (w *world) start(judge bool) (engine.Result, string) {
 	if pan != "" {
 		return engine.Bad(rule, "panic", "C17/start-refused/start/panic", pan), "start"
 	}
-	if rec.Code != http.StatusFound || loc == nil || len(w.unauth) > 0 {
+	if rec.Code < 300 || rec.Code >= 400 || loc == nil || len(w.unauth) > 0 {
 		return bad("start-refused", "no-redirect", fmt.Sprintf("status %d unauthorized=%v", rec.Code, w.unauth))
 	}
 	if len(w.fnOut) == 0 {
